@@ -123,6 +123,13 @@ func (in *Interp) reflectIntrinsic(fr *Frame, name string, args []Value) (Value,
 			return Iface{}, true
 		}
 		return rtypeIface(i.t), true
+	case "(reflect.Kind).String":
+		if k, ok := args[0].(int64); ok {
+			return reflect.Kind(k).String(), true
+		}
+		if k, ok := args[0].(uint64); ok {
+			return reflect.Kind(k).String(), true
+		}
 	}
 	if strings.HasPrefix(name, "(reflect.Value).") {
 		rv := rvOf(args[0])
